@@ -221,3 +221,17 @@ def kf_C01_phase_negative_real():
     new_context(18)
     v = core.value(core.phase(core.ureal(-1.0, 0.1)))
     return (v != cmath.phase(-1.0), 'phase(ureal(-1,0.1)) has value %r, cmath.phase(-1.0) = %r' % (v, cmath.phase(-1.0)))
+
+def kf_C01_phase_atan2_range():
+    """phase / atan2 on values whose squares overflow: plain cmath / math are defined, GTC raises OverflowError"""
+    from GTC import core
+    import cmath, math
+    new_context(19)
+    got = []
+    for call, plain in ((lambda: core.phase(core.ucomplex(1e200 + 1e200j, 1e197)), cmath.phase(1e200 + 1e200j)),
+                        (lambda: core.atan2(core.ureal(1e200, 1e190), core.ureal(1e200, 1e190)), math.atan2(1e200, 1e200))):
+        try:
+            got.append(('ok', core.value(call()) == plain))
+        except Exception as ex:
+            got.append((type(ex).__name__, False))
+    return (any(g[0] != 'ok' or not g[1] for g in got), 'phase(ucomplex(1e200+1e200j,..)), atan2(ureal(1e200,..),ureal(1e200,..)): %r' % (got,))
